@@ -1106,6 +1106,9 @@ func (env *SpecEnv) call(e *SExpr) Val {
 			lo = env.callK + 1
 		}
 		return VInt{T: Or(Eq(r, IntLit(0)), And(Ge(r, IntLit(lo)), Lt(r, IntLit(1000000000))))}
+	case "chanCap":
+		// chanCap(ch): the buffer size the channel was made with
+		return VInt{T: UF("chancap", SInt, env.evalInt(args[0]))}
 	case "armed":
 		// armed(t): the timer or ticker t will fire (again) without further action
 		v, ok := env.ev(args[0]).(VPtr)
